@@ -692,6 +692,10 @@ def compare_fill(e, a, bbox, unit_tol, palette_check=None):
             probs.append(f"alpha {a[2]:.4f} != expected {e[2]:.4f}")
         if e[3] is not None and a[3] is not None and e[3] != a[3] and palette_check:
             probs.append(f"palette index {a[3]} != declared var(--color{e[3]})")
+        if palette_check == "strict" and (e[3] is None) != (a[3] is None):
+            # multi-palette fonts: an entry of the palette and a literal colour are different things (the one follows
+            # the palette the user selects, the other does not)
+            probs.append(f"palette entry {e[3]} vs {a[3]}: one side names a palette entry, the other a literal colour")
         return probs
     es, as_ = e[1], a[1]
     if len(es) != len(as_):
@@ -701,6 +705,8 @@ def compare_fill(e, a, bbox, unit_tol, palette_check=None):
             probs.append(f"stop ({ao:.4f},{ac},{aa:.4f}) != expected ({eo:.4f},{ec},{ea:.4f})")
         if ei is not None and ai is not None and ei != ai and palette_check:
             probs.append(f"stop palette index {ai} != declared {ei}")
+        if palette_check == "strict" and (ei is None) != (ai is None):
+            probs.append(f"stop palette entry {ei} vs {ai}: one side names a palette entry, the other a literal colour")
     if e[2] != a[2]:
         probs.append(f"extend {a[2]} != expected {e[2]}")
     x0, y0, x1, y1 = bbox
